@@ -112,6 +112,11 @@ func scenariosFor(prop string) []scn {
 	case "C01", "C02", "C03", "C04", "C05", "C07":
 		data()
 		if prop == "C01" {
+			// a record is split, the second processor answers short for the last piece and splits THAT piece when it is retried
+			// (inside the retry sub-batch); the destination confirms record by record and rejects the very last leaf
+			v2only := flowParams{Engine: "v2", Sources: 1, Records: 2, Batch: 2, Dests: 1, AckMenu: onlyOK, ChunkAcks: true, Reject: map[string][]string{"d0": {"s0:0:1/2.1/2"}},
+				Procs: []procParam{{ID: "pp", Kinds: []string{"2", "p"}}, {ID: "pq", Kinds: []string{"nestretry", "p"}}}}
+			out = append(out, scn{v2only, 1, 2})
 			// a batching destination that confirms the writes AROUND one it never confirms, in one response: [ack(k-1), ack(k+1)]
 			both(flowParams{Sources: 1, Records: 3, Batch: 1, Dests: 1, AckMenu: []string{"ok", "defer", "skip"}, Stop: ""}, 2, 3)
 		}
